@@ -685,6 +685,8 @@ def run(ctx: Ctx) -> None:
     rule_name_grammar(ctx)
     rule_bit_order(ctx)
     rule_cell_codec(ctx)
+    from .c20 import rule_type_map      # dataclass payloads are part of C02's quantifier: they must be converted from their own definition
+    rule_type_map(ctx)
     ctx.assume("struct / socket.inet_* / array semantics are CPython's (trusted); legal values are whatever the struct code admits")
     ctx.assume("community ids / mids in preference lists are 20 bytes (chunks(join(xs), 20) = xs)")
     ctx.assume("connection_type ranges over its documented values unknown / public / symmetric-NAT")
